@@ -12,10 +12,10 @@ import (
 	"sync"
 
 	ethcmn "github.com/ethereum/go-ethereum/common"
+	ethtypes "github.com/ethereum/go-ethereum/core/types"
 	ethcrypto "github.com/ethereum/go-ethereum/crypto"
 	tmed "github.com/tendermint/tendermint/crypto/ed25519"
 	tmsecp "github.com/tendermint/tendermint/crypto/secp256k1"
-	ethtypes "github.com/ethereum/go-ethereum/core/types"
 
 	"github.com/Oneledger/protocol/action"
 	olvmact "github.com/Oneledger/protocol/action/olvm"
